@@ -220,6 +220,63 @@ int cmdSamples(int argc, char** argv) {
 		[&](size_t i, const std::string& why, FILE* out) {
 			fprintf(out, "{\"e\":\"crash\",\"case\":{\"file\":%s,\"subset\":\"%s\"},\"why\":%s}\n", J::str(files[i / 6]).s.c_str(), kinds[i % 6], J::str(why).s.c_str());
 		});
+	// a shape with more triangles than a 16-bit count holds (Fallout 4 and later store 32-bit counts): a grid of 183 x 183
+	// vertices; one corner vertex and one inner vertex go. The expected list is computed here, naively; TLC compares counts
+	// and the verdict of the element-wise comparison.
+	{
+		std::string why;
+		int rc = forkRun(
+			[&]() -> int {
+				FILE* o = fopen(outPath.c_str(), "a");
+				for (const char* ver : {"FO4", "FO76"}) {
+					const size_t n = 183;
+					std::vector<Triangle> tris;
+					for (size_t y = 0; y + 1 < n; y++)
+						for (size_t x = 0; x + 1 < n; x++) {
+							uint16_t a = uint16_t(y * n + x), b = uint16_t(a + 1), c = uint16_t(a + n), d = uint16_t(c + 1);
+							tris.emplace_back(a, b, c);
+							tris.emplace_back(b, d, c);
+						}
+					NifFile nif;
+					nif.Create(versionByName(ver));
+					NiShape* shape = buildShape(nif, "Big", n * n, tris, true);
+					if (!shape) continue;
+					for (std::vector<uint16_t> idx : {std::vector<uint16_t>{0}, std::vector<uint16_t>{uint16_t(n * 90 + 91)}}) {
+						NifFile model;
+						if (loadFromString(model, saveToString(nif, false, false)) != 0) continue;
+						NiShape* sh = shapeByName(model, "Big");
+						if (!sh) continue;
+						std::vector<Triangle> before;
+						sh->GetTriangles(before);
+						std::vector<Triangle> expect;
+						for (auto& t : before) {
+							if (t.p1 == idx[0] || t.p2 == idx[0] || t.p3 == idx[0]) continue;
+							expect.emplace_back(uint16_t(t.p1 > idx[0] ? t.p1 - 1 : t.p1), uint16_t(t.p2 > idx[0] ? t.p2 - 1 : t.p2), uint16_t(t.p3 > idx[0] ? t.p3 - 1 : t.p3));
+						}
+						model.DeleteVertsForShape(sh, idx);
+						sh = shapeByName(model, "Big");
+						std::vector<Triangle> got;
+						if (sh) sh->GetTriangles(got);
+						bool same = got.size() == expect.size();
+						for (size_t q = 0; same && q < got.size(); q++) same = got[q].p1 == expect[q].p1 && got[q].p2 == expect[q].p2 && got[q].p3 == expect[q].p3;
+						NifFile re;
+						long long reNt = -1;
+						if (loadFromString(re, saveToString(model, false, false)) == 0)
+							if (auto rs = shapeByName(re, "Big")) reNt = (long long) rs->GetNumTriangles();
+						fprintf(o, "{\"e\":\"bigdelete\",\"ver\":\"%s\",\"I\":[%u],\"nt\":%zu,\"expectNt\":%zu,\"gotNt\":%zu,\"sameTris\":%s,\"reloadNt\":%lld}\n", ver, unsigned(idx[0]),
+								before.size(), expect.size(), got.size(), same ? "true" : "false", reNt);
+					}
+				}
+				fclose(o);
+				return 0;
+			},
+			300, why);
+		if (rc != 0) {
+			FILE* o = fopen(outPath.c_str(), "a");
+			fprintf(o, "{\"e\":\"crash\",\"case\":{\"file\":\"(grid of 183 x 183 vertices)\"},\"why\":%s}\n", J::str(why).s.c_str());
+			fclose(o);
+		}
+	}
 	printf("{\"files\":%zu,\"crashes\":%zu}\n", files.size(), crashes);
 	return 0;
 }
